@@ -3,6 +3,7 @@ import SLE.Driver.Containers
 import SLE.Driver.Value
 import SLE.Driver.Types
 import SLE.Driver.JsonD
+import SLE.Driver.VMD
 /-! `sle_driver`: reads `family\tpayload\timpl_answer`, prints `model_answer\toracle_verdict`. -/
 open SLE.Driver
 
@@ -18,6 +19,7 @@ def handleLine (line : String) : String :=
       | "size" => Value.handleSize payload impl
       | "merge" => Types.handleMerge payload impl
       | "json" => JsonD.handle payload impl
+      | "vm" => VMD.handle payload impl
       | _ => ("unknown-family", "ok")
     m ++ "\t" ++ o
   | _ => "bad-line\tok"
